@@ -302,6 +302,11 @@ class SoftwareSwitchBase (object):
       self.log.warn("Command not implemented: %s" % ofp.command)
       self.send_error(type=OFPET_FLOW_MOD_FAILED, code=OFPFMFC_BAD_COMMAND,
                       ofp=ofp, connection=connection)
+      # (The buffer it named is used up all the same, as with the other
+      # ways a flow_mod can fail.)
+      if ofp.buffer_id is not None:
+        self._process_actions_for_packet_from_buffer(ofp.actions,
+                                                     ofp.buffer_id, ofp)
       return
     handler(flow_mod=ofp, connection=connection, table=self.table)
 
